@@ -31,9 +31,12 @@ RULE = (
     "adjustment) x entry points (Alignment/ArrayAlignment.distance_matrix with drop_invalid False/True, calculator "
     "object incl. lengths/proportions tables and include_duplicates=False, fast_slow_dist app) x (as given, columns "
     "permuted, rows re-ordered). trees: random / caterpillar / balanced / star-like trees on 3-14 (thorough 3-24) tips "
-    "with positive dyadic branch lengths (mixed, all-equal => tied joins, tiny internal), exact path-length matrix, "
+    "with positive dyadic branch lengths (mixed, all-equal => tied joins, tiny internal, one very short edge of 3e-11 / "
+    "1e-12 among ordinary ones), the same trees expressed in small units (x 2^-20 / 2^-30 / 2^-34 / 2^-40, exact), "
+    "exact path-length matrix, "
     "shuffled tip order, given as full dict / one-sided dict / DistanceMatrix to nj, gnj (default and keep/dkeep), "
-    "DistanceMatrix.quick_tree, the quick_tree app; coalescent-style ultrametric trees to upgma. Non-trivial = "
+    "DistanceMatrix.quick_tree, the quick_tree app; coalescent-style ultrametric trees to upgma; for one entry point "
+    "per tree the scale relation builder(c*D) = c*builder(D), c a power of two. Non-trivial = "
     "alignment with >=3 rows and >=1 non-canonical symbol, or tree with >=5 tips; distinct = (calculator, entry point, "
     "moltype, missing-data pattern, duplicate class, validity class) resp. (algorithm, input form, tips, shape, "
     "length class)."
@@ -43,7 +46,7 @@ LEVEL_TEXT = (
     "published closed forms with math/fractions, documented domain failures as invalid entries) and compared entry "
     "by entry with what each public entry point returns, incl. symmetry, zero diagonal, column- and row-order "
     "invariance; every generated additive / ultrametric matrix must give back its generating tree (split set and "
-    "branch lengths to 1e-9). Sampled, not exhaustive; run under NUMBA_BOUNDSCHECK=1."
+    "branch lengths to 2e-14 x the largest path length, i.e. relative to the unit of the data), also after re-expressing the matrix in another power-of-two unit (builder(c*D) = c*builder(D)). Sampled, not exhaustive; run under NUMBA_BOUNDSCHECK=1."
 )
 LEVEL_NOTE = (
     "held = held on the executions listed in the evidence; trusted: Python float/Fraction arithmetic, math.log; the "
@@ -68,6 +71,12 @@ CANON = {"dna": "ACGT", "rna": "ACGU"}
 NONCANON = "-N?RYWSKMBDHV"
 CALCS = ["hamming", "pdist", "jc69", "tn93", "paralinear", "logdet"]
 TOL = 1e-9
+# branch lengths of a rebuilt tree: relative to the size of the data (largest path length). The arithmetic of NJ / UPGMA on
+# an additive matrix loses a few units in the last place of the *distances* (measured <= 2.3e-16 x largest distance
+# up to 24 tips), whatever the unit the distances are expressed in; an absolute tolerance would hide everything in a
+# tree measured in small units.
+TREE_RTOL = 2e-14
+UNITS = [2.0**-20, 2.0**-30, 2.0**-34, 2.0**-40]
 
 
 # ---------------------------------------------------------------------------
@@ -1047,9 +1056,10 @@ def compare_unrooted(res, algo, got_tree, model, detail):
     if set(gs) != set(ms):
         res.witness(f"C15/{algo}/topology", got=newick(got), extra=[sorted(x) for x in set(gs) - set(ms)][:3], missing=[sorted(x) for x in set(ms) - set(gs)][:3], **detail)
         return False
+    tol = TREE_RTOL * max(path_matrix(model).values())
     for s, l in ms.items():
-        if abs(gs[s] - l) > TOL:
-            res.witness(f"C15/{algo}/branch-length", got=newick(got), split=sorted(s), got_len=gs[s], exp_len=l, **detail)
+        if abs(gs[s] - l) > tol:
+            res.witness(f"C15/{algo}/branch-length", got=newick(got), split=sorted(s), got_len=gs[s], exp_len=l, tolerance=tol, **detail)
             return False
     return True
 
@@ -1082,11 +1092,12 @@ def compare_rooted(res, algo, got_tree, model, detail):
     if set(gc) != set(mc):
         res.witness(f"C15/{algo}/topology", got=newick(got), extra=[sorted(x) for x in set(gc) - set(mc)][:3], missing=[sorted(x) for x in set(mc) - set(gc)][:3], **detail)
         return False
+    tol = TREE_RTOL * max(path_matrix(model).values())
     for c, l in mc.items():
         if l is None:
             continue
-        if gc[c] is None or abs(gc[c] - l) > TOL:
-            res.witness(f"C15/{algo}/branch-length", got=newick(got), clade=sorted(c), got_len=gc[c], exp_len=l, **detail)
+        if gc[c] is None or abs(gc[c] - l) > tol:
+            res.witness(f"C15/{algo}/branch-length", got=newick(got), clade=sorted(c), got_len=gc[c], exp_len=l, tolerance=tol, **detail)
             return False
     return True
 
@@ -1142,7 +1153,7 @@ def decide_nj(res, model, order, form, algo, params=None, sigparts=None):
         ok = compare_unrooted(res, algo, first, model, detail)
         if ok:
             total = sum(model_splits(model, min(tips_of(model)), frozenset(tips_of(model))).values())
-            if abs(scores[0] - total) > 1e-9 * max(1.0, total):
+            if abs(scores[0] - total) > 1e-12 * total:
                 res.witness("C15/gnj/score-is-not-tree-length", got=scores[0], exp=total, **detail)
         res.count("gnj-trees-returned", len(scores))
     else:
@@ -1177,7 +1188,89 @@ def decide_upgma(res, model, order, form, sigparts=None):
 
 
 SHAPES = ["random", "random", "caterpillar", "balanced"]
-LENS = ["mixed", "mixed", "equal", "tiny-internal", "long-tips"]
+LENS = ["mixed", "mixed", "equal", "tiny-internal", "long-tips", "short-edge"]
+
+
+def scaled(t, c):
+    """the same tree in another unit; c is a power of two, so every length and every path sum stays exact"""
+    return {"name": t["name"], "len": None if t["len"] is None else t["len"] * c, "kids": [scaled(k, c) for k in t["kids"]]}
+
+
+def nonroot_nodes(t, root=True):
+    out = [] if root else [t]
+    for k in t["kids"]:
+        out += nonroot_nodes(k, False)
+    return out
+
+
+def unit_name(c):
+    return "1" if c == 1 else f"2^{round(math.log2(c))}"
+
+
+def pick_unit(rng):
+    return 1 if rng.random() < 0.55 else rng.choice(UNITS)
+
+
+def call_builder(algo, inp, params):
+    """one distance-tree entry point -> the cogent3 tree it returns (gnj: the first of the collection)"""
+    from cogent3.phylo.nj import gnj, nj
+
+    if algo == "nj":
+        return nj(inp, show_progress=False)
+    if algo == "gnj":
+        return gnj(inp, show_progress=False, **(params or {}))[0][1]
+    if algo == "DistanceMatrix.quick_tree":
+        return inp.quick_tree()
+    if algo == "app.quick_tree":
+        from cogent3 import get_app
+
+        return get_app("quick_tree", **(params or {}))(inp)
+    if algo == "upgma":
+        from cogent3.cluster.UPGMA import upgma
+
+        return upgma(inp)
+    raise ValueError(algo)
+
+
+def decide_scale_relation(res, model, order, form, algo, params, c):
+    """builder(c * D) == c * builder(D) for c a power of two (c * D is exact): same tree, lengths c times as long.
+    Decided on the two real results alone."""
+    D = path_matrix(model)
+    Dc = {k: v * c for k, v in D.items()}
+    rc = {"kind": "one-scale", "algo": algo, "tree": model, "order": order, "form": form, "params": params, "c": c}
+    detail = dict(generating_tree=newick(model), order=order, form=form, params=params, factor=unit_name(c), replay_case=rc)
+    res.evals += 1
+    res.count("scale-relation:" + algo)
+    try:
+        t1 = call_builder(algo, build_input(form, D, order), params)
+        tc = call_builder(algo, build_input(form, Dc, order), params)
+        if type(t1).__name__ == "NotCompleted" or type(tc).__name__ == "NotCompleted":
+            res.witness(f"C15/{algo}/not-completed", message=str(tc)[:300], **detail)
+            return
+        g1 = read_tree(t1)
+        gc = read_tree(tc)
+    except Exception as e:  # noqa: BLE001
+        if exc_mechanism("", e).endswith("@harness"):
+            raise
+        res.witness(exc_mechanism(f"C15/{algo}/scale-relation", e), error=repr(e)[:300], **detail)
+        return
+    if algo == "upgma":
+        m1, mc = model_clades(g1), model_clades(gc)
+    else:
+        tips = frozenset(order)
+        m1, mc = model_splits(g1, min(tips), tips), model_splits(gc, min(tips), tips)
+    if set(m1) != set(mc):
+        res.witness(f"C15/{algo}/scale-relation/topology", unscaled=newick(g1), scaled=newick(gc), **detail)
+        return
+    tol = TREE_RTOL * c * max(D.values())
+    for k, l in m1.items():
+        if l is None and mc[k] is None:
+            continue
+        if l is None or mc[k] is None or abs(mc[k] - c * l) > tol:
+            res.witness(f"C15/{algo}/scale-relation/branch-length", unscaled=newick(g1), scaled=newick(gc), split=sorted(k), got_len=mc[k], exp_len=None if l is None else c * l, tolerance=tol, **detail)
+            return
+    if len(order) >= 5:
+        res.sig(algo, form, "scale-relation", unit_name(c), shape_of(len(order), "", "")[0])
 
 
 def run_case(case):
@@ -1191,6 +1284,9 @@ def run_case(case):
             decide_upgma(res, case["tree"], case["order"], case["form"])
         else:
             decide_nj(res, case["tree"], case["order"], case["form"], case["algo"], case.get("params"))
+        return res
+    if kind == "one-scale":
+        decide_scale_relation(res, case["tree"], case["order"], case["form"], case["algo"], case.get("params"), case["c"])
         return res
     rng = random.Random(case["seed"])
     if kind == "edge":
@@ -1210,10 +1306,19 @@ def run_case(case):
             n = rng.choice([3, 4, 5, 6, 7, 8, 9, 10, 12, case["maxtips"]])
             shape = rng.choice(SHAPES)
             lens = rng.choice(LENS)
-            model = gen_unrooted(rng, n, shape, lens)
+            model = gen_unrooted(rng, n, shape, "mixed" if lens == "short-edge" else lens)
+            if lens == "short-edge":
+                # one very short edge, internal or terminal, among ordinary ones (not a power of two: the path sums
+                # are then exact only to the last place, which is all the data can be)
+                rng.choice(nonroot_nodes(model))["len"] = rng.choice([3e-11, 1e-12])
+                res.count("trees-with-one-very-short-edge")
+            unit = pick_unit(rng)
+            if unit != 1:
+                model = scaled(model, unit)
+                res.count("trees-in-small-units")
             order = tips_of(model)
             rng.shuffle(order)
-            sp = shape_of(n, shape, lens)
+            sp = shape_of(n, shape, lens) + ("unit:" + unit_name(unit),)
             if lens == "equal" and n >= 5:
                 res.count("trees-with-tied-joins")
             res.count("shape:" + shape)
@@ -1226,6 +1331,10 @@ def run_case(case):
                 decide_nj(res, model, order2, "dict-full", "gnj", params={"keep": rng.choice([2, 3, 5]), "dkeep": rng.choice([0, 2])}, sigparts=sp + ("keep",))
             decide_nj(res, model, order2, "DistanceMatrix", "DistanceMatrix.quick_tree", sigparts=sp)
             decide_nj(res, model, order, "DistanceMatrix", "app.quick_tree", params={"drop_invalid": rng.random() < 0.5}, sigparts=sp)
+            ralgo, rform, rparams = rng.choice(
+                [("nj", "dict-full", None), ("nj", "dict-upper", None), ("gnj", "dict-full", {}), ("gnj", "DistanceMatrix", {"keep": 3, "dkeep": 1}), ("DistanceMatrix.quick_tree", "DistanceMatrix", None), ("app.quick_tree", "DistanceMatrix", {})]
+            )
+            decide_scale_relation(res, model, order, rform, ralgo, rparams, rng.choice([2.0**-34, 2.0**-40, 2.0**-20, 2.0**10] if unit == 1 else [2.0**-8, 2.0**20, 2.0**34]))
             if i == 0:
                 res.sample({"algorithm": "nj", "generating_tree": newick(model), "order": order})
     elif kind == "upgma":
@@ -1234,11 +1343,17 @@ def run_case(case):
             shape = rng.choice(SHAPES)
             lens = rng.choice(["mixed", "mixed", "equal", "tiny-internal"])
             model = gen_ultrametric(rng, n, shape, lens)
+            unit = pick_unit(rng)
+            if unit != 1:
+                model = scaled(model, unit)
+                res.count("trees-in-small-units")
             order = tips_of(model)
             rng.shuffle(order)
-            sp = shape_of(n, shape, lens)
+            sp = shape_of(n, shape, lens) + ("unit:" + unit_name(unit),)
             res.count("shape:" + shape)
             decide_upgma(res, model, order, rng.choice(["dict-full", "DistanceMatrix"]), sigparts=sp)
+            if n >= 3:
+                decide_scale_relation(res, model, order, rng.choice(["dict-full", "DistanceMatrix"]), "upgma", None, rng.choice([2.0**-34, 2.0**-40, 2.0**10] if unit == 1 else [2.0**-8, 2.0**20, 2.0**34]))
             if i == 0:
                 res.sample({"algorithm": "upgma", "generating_tree": newick(model), "order": order})
     return res
@@ -1267,6 +1382,13 @@ def required(counters, tier):
         "algo:app.quick_tree",
         "algo:DistanceMatrix.quick_tree",
         "trees-with-tied-joins",
+        "trees-in-small-units",
+        "trees-with-one-very-short-edge",
+        "scale-relation:nj",
+        "scale-relation:gnj",
+        "scale-relation:app.quick_tree",
+        "scale-relation:DistanceMatrix.quick_tree",
+        "scale-relation:upgma",
         "form:dict-upper",
         "form:DistanceMatrix",
     ] + ["calc:" + c for c in CALCS] + ["exact-boundary:" + e for e in EDGES]
